@@ -344,6 +344,22 @@ pub fn get_best_move_entry(
         return Some((moves.first().copied(), 0, true));
     }
 
+    // Without a legal move this is checkmate or stalemate. Score it like any other node and
+    // leave the table alone: the loop below would cache "worse than any mate" for the position,
+    // and a later search through it would then rate every line into it as lost for one side
+    // and could end up with no move at all
+    if moves.is_empty() {
+        let player = game.player();
+        let score = if game.king_exists(player)
+            && !game.is_targeted(game.get_king_position(player), player)
+        {
+            0
+        } else {
+            Score::MIN + 100
+        };
+        return Some((None, score, false));
+    }
+
     let mut killer_moves = [None; MAX_SEARCH_DEPTH as usize];
     let mut best_move = None;
     let mut best_score = Score::MIN + 1;
